@@ -200,9 +200,19 @@ func (s *Sorts) CellHeap(t types.Type) HeapVar {
 	n := s.SortOf(t)
 	return HeapVar{"C." + sortID(n), "(Array Int " + n + ")"}
 }
+// ArrHeap: backing arrays are grouped by element sort; arrays of pointers and interfaces are grouped by the Go
+// element type, so that arrays owned by immutable libraries (go/ssa, go/types) have heaps of their own.
 func (s *Sorts) ArrHeap(elem types.Type) HeapVar {
 	n := s.SortOf(elem)
-	return HeapVar{"A." + sortID(n), "(Array Int (Array Int " + n + "))"}
+	name := "A." + sortID(n)
+	switch elem.Underlying().(type) {
+	case *types.Pointer, *types.Interface:
+		ts := types.TypeString(elem, func(p *types.Package) string { return p.Name() })
+		if strings.Contains(ts, "ssa.") || strings.Contains(ts, "types.") || strings.Contains(ts, "token.") || strings.Contains(ts, "ast.") {
+			name = "A.ref." + mangle(ts)
+		}
+	}
+	return HeapVar{name, "(Array Int (Array Int " + n + "))"}
 }
 func (s *Sorts) MapDom(k types.Type) HeapVar {
 	n := s.SortOf(k)
